@@ -35,8 +35,8 @@ import (
 
 %token IDENT LAND LOR LPAREN RPAREN NOT SEMICOLON BASICLIT COMMA BOOL STRING INT FLOAT IMAG COMMENT ILLEGAL
 
-%left LAND
 %left LOR
+%left LAND
 %right NOT	
 %%
 
